@@ -270,6 +270,8 @@ def check_license(tokens, groups, licenses, classes=None):
     except ValueError:
         got, err = None, "ValueError"
     if classes is not None:
+        if not bad:  # fold the group flavours into one feature to keep the class list short
+            feats = {"group" if f in ("group", "neg-group", "missing-group") else f for f in feats}
         k = "lic:reject:" + bad if bad else "lic:" + ("+".join(sorted(feats)) or "plain")
         classes[k] = classes.get(k, 0) + 1
     if bad:
